@@ -87,6 +87,7 @@ fn c16_workload(b4: &str) -> String {
         v
     };
     if prof { println!("PROF tokenise {:?}", tt.elapsed()); }
+    if prof { println!("PROF tokenise {:?}", tt.elapsed()); }
     let all = flat(&map);
     for (p, k, c) in &all {
         // no `{:?}` on strings: char-by-char escaping is what the interpreter is slowest at
@@ -116,12 +117,14 @@ fn c16_workload(b4: &str) -> String {
         }
     }
     if prof { println!("PROF splits done {:?}", tt.elapsed()); }
+    if prof { println!("PROF splits done {:?}", tt.elapsed()); }
     for marker in ["21", "61", "20"] {
         match parse_repetitive_sequence::<swift_mt_message::messages::MT101>(&map, marker) {
             Ok(items) => out.push_str(&format!("items {marker} {:?}\n", items.iter().map(|i| flat(i).iter().map(|f| f.0).collect::<Vec<_>>()).collect::<Vec<_>>())),
             Err(e) => out.push_str(&format!("items error {e}\n")),
         }
     }
+    if prof { println!("PROF items done {:?}", tt.elapsed()); }
     if prof { println!("PROF items done {:?}", tt.elapsed()); }
     let mut keys: Vec<String> = map.keys().cloned().collect();
     keys.sort();
@@ -146,6 +149,7 @@ fn c16_workload(b4: &str) -> String {
             }
         }
     }
+    if prof { println!("PROF drain done {:?}", tt.elapsed()); }
     if prof { println!("PROF drain done {:?}", tt.elapsed()); }
     out.push_str(&format!("handed {handed} of {}\n", all.len()));
     out
